@@ -910,6 +910,9 @@ func TestC40(t *testing.T) {
 		"ReadCount/WriteCount (server-side TODO stubs returning 0) and Cursors (DbmsLocal stub returning 0; checked against the session's own count), Auth, Use/Unuse, DisableTrigger, Dump/Load are not part of the differential",
 		"a request or reply over the 1 MB limit must fail loudly (error or lost connection), it is never compared for equality",
 		"both sides run in one process: the io limit panics (options.Action == server) where a stand-alone client would exit",
+		"the database itself must be deterministic for a differential: checker coin flip off (db19.VerifAbortT1), a checker barrier after every request, at most one update transaction open at a time (conflicts between overlapping update transactions are resolved in map-iteration / timing order), results of a transaction aborted by a conflict are not compared after the abort (it must not commit on either side)",
+		"scripts do not delete/update the same row twice in one transaction (a second delete of a row output in the same transaction is accepted by db19 and breaks its index merge at persist - reported, outside this property) and do not call Update/Delete for rows of non-updateable queries (callers refuse those)",
+		"db.Check(full) is part of the compared dump; a complaint shared by both sides is counted, not judged",
 		"fragmentation: raw chunks below TLS in both directions, the client's writes split into separate TLS records, short reads for the client's mux reader; at most ~16-64 pieces per write call so that 1 MB messages stay affordable",
 	}
 	defer rec.Write()
@@ -923,10 +926,10 @@ func TestC40(t *testing.T) {
 	if !rt.Check(t, rec, "differential", 400, 3000, func(t *rapid.T) { differential40(t, rec) }) {
 		return
 	}
-	if !rt.Check(t, rec, "concurrent", 100, 500, func(t *rapid.T) { concurrent40(t, rec) }) {
+	if !rt.Check(t, rec, "concurrent", 100, 300, func(t *rapid.T) { concurrent40(t, rec) }) {
 		return
 	}
-	rt.Check(t, rec, "muxecho", 100, 1000, func(t *rapid.T) { muxEcho40(t, rec) })
+	rt.Check(t, rec, "muxecho", 100, 600, func(t *rapid.T) { muxEcho40(t, rec) })
 }
 
 func newSides(big bool, f frag) (loc, rem *side, srvL, srvR *server, c *client) {
@@ -961,6 +964,7 @@ func differential40(t *rapid.T, rec *ev.Rec) {
 		limitProbe = gen.Pick(t, "probe size", []int{maxio - 4096, maxio - 64, maxio - 16, maxio - 8, maxio - 3, maxio, maxio + 1, maxio + 4096})
 	}
 	journal(journalCase{Sub: "differential", Ops: ops, Frag: f, LimitProbe: limitProbe})
+	defer unjournal()
 	runDifferential(t, rec, ops, f, limitProbe)
 }
 
@@ -1132,6 +1136,7 @@ func concurrent40(t *rapid.T, rec *ev.Rec) {
 		scripts[i] = sessionScript(t, i)
 	}
 	journal(journalCase{Sub: "concurrent", Scripts: scripts, Frag: f})
+	defer unjournal()
 	runConcurrent(t, rec, scripts, f)
 }
 
@@ -1407,6 +1412,15 @@ func journal(jc journalCase) {
 	b, err := json.Marshal(jc)
 	if err == nil {
 		os.WriteFile(rt.ReplayOut("C40_journal.json"), b, 0o644)
+	}
+}
+
+// unjournal removes the journal of a case that ended (in whatever way) with
+// the process alive; failures found by the oracle are replayed from rapid's
+// fail file.
+func unjournal() {
+	if !rt.Replaying() {
+		os.Remove(rt.ReplayOut("C40_journal.json"))
 	}
 }
 
